@@ -338,7 +338,7 @@ def fn(ck, a):
                     d = t["dec"][where - 1]
                     if not d["ok"] and has_g:
                         continue        # unreadable because of the grammar violation already reported
-                    sp = any('"' in x or "\\" in x for x in d["expected"])
+                    sp = t.get("specials") or any('"' in x or "\\" in x for x in d["expected"])
                     groups.setdefault((clause, d["kind"].split(".")[0] + ("/specials" if sp else "")), []).append(
                         (len(t["raw"]), i, -1, d))
         for (clause, act), lst in sorted(groups.items()):
